@@ -87,3 +87,44 @@ func H_C16_PQ() {
 	vrt.Trace("n", uint64(n))
 	vrt.Reach("pq/end")
 }
+
+// H_C16_PQWide: many inputs of one element each: heap shapes with six and seven live inputs (removal of an
+// exhausted input from a heap that has a second level of children on both sides).
+func H_C16_PQWide() {
+	k := 6
+	if vrt.Thorough() {
+		k = vrt.Range("inputs", 6, 7)
+	}
+	var its []IteratorWithContext[uint8, uint8, int]
+	keys := make([]uint8, k)
+	for i := 0; i < k; i++ {
+		keys[i] = vrt.Byte(vrt.K("k", i))
+		its = append(its, &vIter{ctx: i, keys: []uint8{keys[i]}, vals: []uint8{uint8(i)}})
+	}
+	q, err := NewPriorityQueue[uint8, uint8, int](skiplist.OrderedComparator[uint8]{}, its)
+	vrt.Assert(err == nil, "pqwide/init-no-error")
+	seen := make([]bool, k)
+	var prev uint8
+	n := 0
+	for ; n <= k; n++ {
+		key, val, ctx, err := q.Next()
+		if err != nil {
+			vrt.Assert(errors.Is(err, Done), "pqwide/only-done-error")
+			break
+		}
+		vrt.Assert(n < k, "pqwide/not-more-than-all-elements")
+		if n > 0 {
+			vrt.Assert(prev <= key, "pqwide/non-descending")
+		}
+		prev = key
+		vrt.Assert(ctx >= 0 && ctx < k && int(val) == ctx, "pqwide/context-identifies-the-input")
+		if ctx >= 0 && ctx < k {
+			vrt.Assert(keys[ctx] == key, "pqwide/key-belongs-to-its-input")
+			vrt.Assert(!seen[ctx], "pqwide/element-returned-once")
+			seen[ctx] = true
+		}
+	}
+	vrt.Assert(n == k, "pqwide/every-element-returned")
+	vrt.Trace("n", uint64(n))
+	vrt.Reach("pqwide/end")
+}
